@@ -25,6 +25,9 @@ pub struct KeyFamily {
     pub fanout: u32,
     pub keylen: u32,
     pub seed: u64,
+    /// keys come in pairs (k, k + one letter): every other key is a proper
+    /// prefix of its successor, so final nodes keep getting transitions
+    pub pairs: bool,
 }
 
 impl KeyFamily {
@@ -32,7 +35,8 @@ impl KeyFamily {
         let f = self.fanout as u64;
         let mut d = 1;
         let mut cap = f;
-        while cap < self.n {
+        let n = if self.pairs { self.n / 2 + 1 } else { self.n };
+        while cap < n {
             cap = cap.saturating_mul(f);
             d += 1;
         }
@@ -48,9 +52,20 @@ impl KeyFamily {
     }
     /// Write key `i` into `buf` (reusing its capacity).
     pub fn key_into(&self, i: u64, buf: &mut Vec<u8>) {
+        if self.pairs {
+            let base = KeyFamily { pairs: false, n: self.n / 2 + 1, ..*self };
+            base.key_into_plain(i / 2, buf, self.digits());
+            if i % 2 == 1 {
+                buf.push(self.letter(0));
+            }
+            return;
+        }
+        self.key_into_plain(i, buf, self.digits());
+    }
+
+    fn key_into_plain(&self, i: u64, buf: &mut Vec<u8>, d: u32) {
         buf.clear();
         let f = self.fanout as u64;
-        let d = self.digits();
         let mut div = 1u64;
         for _ in 1..d {
             div *= f;
@@ -88,6 +103,8 @@ pub struct MemBuildCase {
     pub bufcap: Option<usize>,
     /// checkpoint interval (inserts)
     pub every: u64,
+    /// acceptance behaviour of the discarding sink
+    pub shape: Shape,
 }
 
 #[derive(Clone, Debug)]
@@ -115,13 +132,10 @@ pub fn build_bound(registry: Option<(usize, usize)>, fanout: u32, keylen: u32) -
 
 pub fn run_mem_build(case: &MemBuildCase) -> MemBuildRun {
     let fam = case.fam;
-    let bound = build_bound(case.registry, fam.fanout, fam.keylen);
+    let bound = build_bound(case.registry, fam.fanout, fam.keylen + fam.pairs as u32);
     let mut sink = SinkState::new(
         Plan::clean(),
-        Decider::Random {
-            shape: Shape::Random { short_16: 2, intr_16: 1 },
-            rng: Rng::new(fam.seed ^ 0x51),
-        },
+        Decider::Random { shape: case.shape, rng: Rng::new(fam.seed ^ 0x51) },
         &[],
     );
     sink.discard = true;
@@ -450,7 +464,7 @@ pub fn run_mem_read(case: &MemReadCase) -> MemReadRun {
     let mut run = MemReadRun::default();
     let r = catch_unwind(AssertUnwindSafe(|| -> Option<Violation> {
         for (which, n) in [(0, case.n_small), (1, case.n_large)] {
-            let fam = KeyFamily { n, fanout: case.fanout, keylen: case.keylen, seed: case.seed };
+            let fam = KeyFamily { n, fanout: case.fanout, keylen: case.keylen, seed: case.seed, pairs: false };
             let fsts = build_family(&fam, case.k);
             let ms = measure_all(&fam, case.k, &fsts);
             if which == 0 {
